@@ -43,9 +43,18 @@ def cases(ctx):
 
     for j in range(60 if ctx.quick else 600):
         r = ctx.rng("C17tree", j)
-        p = proj(rand_tree(r, r.choice([4, 5, 5, 6, 7, 8])))
+        t = rand_tree(r, r.choice([4, 5, 5, 6, 7, 8]))
+        if j % 3 == 0 and "t1" in t.graph:
+            # block roots whose names differ only in characters that are not word characters
+            import networkx as nx
+
+            nx.relabel_nodes(t.graph, {"t0": "n[1]", "t1": "n_1_"}, copy=False)
+        p = proj(t)
         yield {"op": "supergates", "c": p, "super": False, "src": "TREE"}
         yield {"op": "supergates", "c": p, "super": True, "src": "TREE"}
+    if ctx.hashseed == 0:
+        # blocks nested deeper than Python's recursion limit (a ladder of two-input gates); recorded only if the call raises
+        yield {"op": "supergates", "c": ladder(1100), "super": False, "src": "DEEP", "sparse": True}
     for j in range(120 if ctx.quick else 2500):
         r = ctx.rng("C17g3", j)
         single = r.random() < 0.5
@@ -106,6 +115,23 @@ def rand_tree(r, leaves):
     return c
 
 
+def ladder(n):
+    """x0 & x1 -> g1;  g1 & x2 -> g2; ... : every gate heads a block that contains the previous gate as an input."""
+    import networkx as nx
+    from ..proj import proj_graph
+
+    g = nx.DiGraph()
+    g.add_node("x0", type="input", output=False)
+    prev = "x0"
+    for i in range(1, n + 1):
+        g.add_node("x%d" % i, type="input", output=False)
+        g.add_node("g%d" % i, type="and" if i % 2 else "or", output=(i == n))
+        g.add_edge(prev, "g%d" % i)
+        g.add_edge("x%d" % i, "g%d" % i)
+        prev = "g%d" % i
+    return proj_graph(g, "ladder")
+
+
 def topo_hint(sgs):
     """Topological order of supergates (producer before consumer) for the super-circuit form - a hint the spec re-checks
     through the composition clause."""
@@ -139,6 +165,13 @@ def run_case(case, ctx):
             L = cg.tx.supergates(c)
     except Exception as e:
         exc = type(e).__name__
+    if case.get("sparse"):
+        if not exc:
+            ctx.count("deep_ladder_decomposed_into_%d_blocks" % len(L))
+            return []
+        # judged on a small stand-in circuit: only the fact that the call raised on a legal circuit matters
+        return {"kind": "supergates", "c": ladder(2), "wide": False, "form": "list", "L": [], "superc": {}, "exc": exc, "nontrivial": True,
+                "tags": ["output_cones_disjoint"]}
     ev = {"kind": "supergates", "c": case["c"], "wide": max([len(f) for f in case["c"]["fi"]] + [0]) > 2,
           "form": "super" if case["super"] else "list", "L": [proj(s) for s in L],
           "superc": proj(superc) if superc is not None else {}, "exc": exc}
